@@ -144,8 +144,18 @@ class C06(Check):
                         "InvalidOperationError", "ComputeError", "SchemaError") and out.classes.count("gen:nonequi_join"):
                     out.count("polars_join_where_refusal")  # documented: depends on what polars can handle
                     continue
-                out.fail("internal-error", f"{kind}:export-join:{exc_name(ex)}", f"{kind} export of the join raised {exc_name(ex)}: {str(ex)[:300]}")
-                continue
+                df = None
+                if kind == "polars":
+                    # the Polars optimizer panics / raises on a plan that collects without it (DESIGN 4.15 g)
+                    try:
+                        df = build.export_polars_noopt(b.vars[jv])
+                        out.count("engine_quirk:polars_optimizer_error")
+                    except BaseException as ex2:  # noqa: BLE001
+                        reraise_control(ex2)
+                        df = None
+                if df is None:
+                    out.fail("internal-error", f"{kind}:export-join:{exc_name(ex)}", f"{kind} export of the join raised {exc_name(ex)}: {str(ex)[:300]}")
+                    continue
             got = list(df.columns)
             # the metadata must agree as well
             msg = names_valid(L.names(), R.names(), got, R.name, jstep.get("suffix"))
